@@ -27,12 +27,18 @@ CONFIGS_QUICK = [("g++", "c++17"), ("clang++", "c++11")]
 CONFIGS_THOROUGH = [(c, s) for c in ("g++", "clang++") for s in ("c++11", "c++14", "c++17", "c++20", "c++2b")]
 
 
-def schemas(tier):
+def generated(tier, seed):
+    """schemas built by spec/SchemaBuild.tla (TLC simulation): trait tables of shapes nobody wrote by hand"""
+    import schemabuild
+    return schemabuild.generated_schemas(10 if tier == "thorough" else 3, seed)
+
+
+def schemas(tier, seed=1):
     hs = catalogue.header_schemas()
     if tier == "quick":
         want = ("h_reorder", "h_types64_be", "h_gaps", "h_counters_be", "h_extra", "h_refs")
         hs = [S for S in hs if S["package"] in want]
-    return catalogue.view_schemas() + hs + [traitsgen.c18_schema(), traitsgen.c18_fp_schema("float"), traitsgen.c18_fp_schema("double"), traitsgen.c18_text_schema(), traitsgen.c18_quote_schema(), traitsgen.c18_ctrl_schema()]
+    return catalogue.view_schemas() + hs + [traitsgen.c18_schema(), traitsgen.c18_fp_schema("float"), traitsgen.c18_fp_schema("double"), traitsgen.c18_text_schema(), traitsgen.c18_quote_schema(), traitsgen.c18_ctrl_schema()] + generated(tier, seed)
 
 
 # ------------------------------------------------------------ expected -----
@@ -224,7 +230,7 @@ def run(v, tier, seed):
     wd = vlib.fresh_dir(os.path.join(vlib.WORK, "c18", tier))
     configs = CONFIGS_THOROUGH if thorough else CONFIGS_QUICK
     vlib.build_sbeppc("plain")
-    Ss = sorted(schemas(tier), key=lambda S: -len(S["types"]))   # long jobs first
+    Ss = sorted(schemas(tier, seed), key=lambda S: -len(S["types"]))   # long jobs first
     results = vlib.parallel(Ss, lambda S: run_schema(S, configs, wd), nproc=8)
 
     programs = comparisons = entities = 0
